@@ -46,7 +46,9 @@ LEAVES = {
 OTHER = [("zz-other", "search", ["x"], 1), ("a", "bulk", ["y"], 2)]
 FILTERS = ["a", "b", "ab", "d", "x", "zz", "type:bulk", "type:search", "type:raw-request", "type:composite", "type:scroll-search", "tag:x", "tag:y", "tag:xy", "tag:z", "tag:search",
            # the name of the OPERATION of task a (tasks are selected by their own name only)
-           "a-op"]
+           "a-op",
+           # task filters are case-sensitive: this one matches nothing
+           "D"]
 MALFORMED = ["foo:bar", "a:b:c", "tags:x"]
 
 
@@ -262,11 +264,14 @@ def check_raced(spec, flts, exclude, res):
     cfg = config.Config()
     vflts = [f.replace("type:", "type:v-") for f in flts]
     cfg.add(config.Scope.application, "track", "exclude.tasks" if exclude else "include.tasks", vflts)
-    loader.TaskFilterTrackProcessor(cfg).on_after_load_track(trk)
-    sel = {n: any(matches(f, n) for f in flts) != exclude for el in spec for n in names(el)}
     v = None
+    try:
+        loader.TaskFilterTrackProcessor(cfg).on_after_load_track(trk)
+    except Exception as e:  # noqa
+        v = ("filter-raises", f"{type(e).__name__}: {e}")
+    sel = {n: any(matches(f, n) for f in flts) != exclude for el in spec for n in names(el)}
     seen_names = []
-    if ch_.schedule:
+    if v is None and ch_.schedule:
         r = racesim.run_race(ch_.schedule, ["localhost"], 2, lambda entry: {"service_time": 0.25, "body": {}}, explore.Chooser(()), horizon=300.0)
         seen_names = [n for _t, n, _m in r.received]
         ran = {}
